@@ -141,6 +141,74 @@ Theorem C16_unforgeable : forall (K : term -> Prop) (k0 : nat), (forall t, K t -
 Proof. exact unforgeable. Qed.
 Print Assumptions C16_unforgeable.
 
+(* ---------------------------------------------------------------- the encrypted wrapper (a JWE around the object)
+   WEnc h i = a compact JWE with header h around the plaintext i (a JWS | claims as bare JSON | anything else);
+   open_wrapper w = what the provider holds after decryption: the JWS inside, bare JSON claims as the UNSIGNED object
+   `WObj "none" claims None`, WBad when the wrapper does not open or holds neither.  C16_authenticated,
+   C16_registered_alg_enforced, C16_override, C16_cross_client above range over ALL operations, wrapped objects
+   included (by value, behind a request_uri, pushed).  The statements below say that encryption adds no authority. *)
+
+(* verification sees only the content of the wrapper *)
+Theorem C16_wrapper_opened : forall g fb w, from_jwt g fb w = from_jwt g fb (open_wrapper w).
+Proof. exact from_jwt_open. Qed.
+Print Assumptions C16_wrapper_opened.
+
+(* pushed: pushing a wrapped object answers and stores exactly what pushing its content does *)
+Theorem C16_wrapper_pushed : forall g d st pusher body w urn,
+  step g d st (OPush pusher body (Some w) urn) = step g d st (OPush pusher body (Some (open_wrapper w)) urn).
+Proof. exact push_open. Qed.
+Print Assumptions C16_wrapper_pushed.
+
+(* by value: the authorization endpoint answers a wrapped object exactly as it answers its content, when RequestParam
+   is not among the usable client-authentication methods or the wrapper says cty "JWT" and opens onto a JWS / JSON *)
+Theorem C16_wrapper_by_value : forall g d st outer w,
+  (~ In MReqParam (methods g) \/ opens_on_claims w) ->
+  authz_parse g d st outer (Some w) = authz_parse g d st outer (Some (open_wrapper w)).
+Proof. exact authz_open. Qed.
+Print Assumptions C16_wrapper_by_value.
+
+(* by request_uri: a wrapped document never takes effect (the only accepted outcome for that uri is a pushed request
+   stored under it) *)
+Theorem C16_wrapper_by_uri : forall g d st r cid st' r' via ru h i,
+  do_request_uri g d st r cid = (st', Acc r', via) ->
+  assoc k_request_uri (r_params r) = Some (PS_ ru) -> ru <> [] -> assoc ru d = Some (WEnc h i) ->
+  via = Some ru /\ exists e, In (ru, e) (par_db st) /\ r' = e_req e.
+Proof. exact wrapped_doc_no_effect. Qed.
+Print Assumptions C16_wrapper_by_uri.
+
+(* C16's soundness over wrapped objects, whatever the client-authentication methods and the cty header: after any
+   history, a by-value object whose parameters take effect was verified as the CONTENT of its wrapper and is
+   authenticated for the client the request is attributed to *)
+Theorem C16_wrapped_authenticated : forall g d t0 pre outer w st' r via v,
+  cfg_wf g = true ->
+  authz_parse g d (state_after g d t0 pre) outer (Some w) = (st', Acc r, via) ->
+  assoc k_request_uri outer = None -> r_vr r = Some v ->
+  from_jwt g None (open_wrapper w) = FOk v /\ authenticated g r v.
+Proof. exact value_wrapped_sound. Qed.
+Print Assumptions C16_wrapped_authenticated.
+
+(* claims nobody signed inside a wrapper take effect only as an unsigned object: only where "none" is permitted for
+   the client the request is attributed to - where an unsigned plain object is accepted too; never for a client that
+   registered a signing algorithm other than "none" *)
+Theorem C16_wrapped_unsigned : forall g d t0 pre outer h c st' r via v,
+  cfg_wf g = true ->
+  authz_parse g d (state_after g d t0 pre) outer (Some (WEnc h (IJson c))) = (st', Acc r, via) ->
+  assoc k_request_uri outer = None -> r_vr r = Some v ->
+  v_alg v = s_none /\ v_key v = None /\ v_claims v = c /\
+  exists cid ci, assoc k_client_id (r_params r) = Some (PS_ cid) /\ find_client (clients g) cid = Some ci /\
+                 allowed g ci s_none = true.
+Proof. exact wrapped_unsigned. Qed.
+Print Assumptions C16_wrapped_unsigned.
+
+Theorem C16_wrapped_unsigned_registered : forall g d t0 pre outer h c st' r via v,
+  cfg_wf g = true ->
+  authz_parse g d (state_after g d t0 pre) outer (Some (WEnc h (IJson c))) = (st', Acc r, via) ->
+  assoc k_request_uri outer = None -> r_vr r = Some v ->
+  forall cid ci s, assoc k_client_id (r_params r) = Some (PS_ cid) -> find_client (clients g) cid = Some ci ->
+    c_reg ci = RStr s -> s = s_none.
+Proof. exact wrapped_unsigned_registered. Qed.
+Print Assumptions C16_wrapped_unsigned_registered.
+
 (* ---------------------------------------------------------------- non-vacuity: accepting and refusing runs *)
 Example C16_accepts_genuine :
   cfg_wf (ex_cfg false (RStr s_rs256)) = true /\ cfg_wf (ex_cfg true RAbsent) = true /\
@@ -187,4 +255,51 @@ Example C16_spellings :
   = (List.repeat (false, true, None) 9 ++ [(true, false, Some ex_urn_a)] ++ List.repeat (false, true, None) 9)%list
   /\ redeemed (run (ex_cfg true RAbsent) [] (init 0) ops) = [ex_urn_a]
   /\ pushed_urns (List.tl ops) = [].
+Proof. vm_compute. repeat split; reflexivity. Qed.
+
+(* wrapped objects: the genuine JWS inside a JWE is accepted and overrides (by value; pushed and redeemed), with and
+   without RequestParam among the methods, with and without cty; JSON claims nobody signed are accepted where "none"
+   is the registered algorithm *)
+Example C16_wrapped_accepts :
+  let gen := wgen s_rs256 (ex_claims s_c1 s_r1) 0 in
+  took_effect (outcome_of (authz_parse (ex_cfg false (RStr s_rs256)) [] (init 0) ex_by_value (Some (wenc ex_hdr gen)))) = true /\
+  took_effect (outcome_of (authz_parse (ex_cfg true (RStr s_rs256)) [] (init 0) ex_by_value
+                                       (Some (wenc (jhdr s_ecdh_es s_a128gcm true JOpens) gen)))) = true /\
+  took_effect (outcome_of (authz_parse (ex_cfg_m false (RStr s_rs256) [MPublic]) [] (init 0) ex_by_value
+                                       (Some (wenc ex_hdr gen)))) = true /\
+  took_effect (outcome_of (authz_parse (ex_cfg false (RStr s_none)) [] (init 0) ex_by_value
+                                       (Some (wencj ex_hdr (ex_claims s_c1 s_r1))))) = true /\
+  List.map (fun x => (took_effect (fst x), refused (fst x), snd x))
+    (authz_results (run (ex_cfg true (RStr s_rs256)) [] (init 0)
+       [OPush s_c1 ex_by_value (Some (wenc ex_hdr gen)) ex_urn; OAuthz (ex_by_uri ex_urn) None]))
+  = [(true, false, Some ex_urn)] /\
+  opens_on_claims (wenc (jhdr s_ecdh_es s_a128gcm true JOpens) gen).
+Proof. vm_compute. repeat split; try reflexivity. discriminate. Qed.
+
+(* ... and refused: claims nobody signed / an alg=none JWS inside the wrapper although RS256 is registered (by value,
+   pushed, with and without RequestParam), another client's signature, a tampered JWS, a wrapper that does not open,
+   a wrapped document behind a request_uri *)
+Example C16_wrapped_refuses :
+  let gen := wgen s_rs256 (ex_claims s_c1 s_r1) 0 in
+  let g := ex_cfg false (RStr s_rs256) in
+  List.map (fun w => refused (outcome_of (authz_parse g [] (init 0) ex_by_value (Some w))))
+    [wencj ex_hdr (ex_claims s_c1 s_r1);
+     wencj (jhdr s_rsa_oaep s_a256gcm true JOpens) (ex_claims s_c1 s_r1);
+     wenc ex_hdr (WObj s_none (ex_claims s_c1 s_r1) None);
+     wenc ex_hdr (wgen s_rs256 (ex_claims s_c1 s_r1) 3);
+     wenc ex_hdr (wsig s_rs256 (ex_claims s_c2 s_r2) 0 s_rs256 (ex_claims s_c1 s_r1));
+     wenc (jhdr s_rsa_oaep s_a256gcm false JNoKey) gen;
+     wenc (jhdr s_rsa_oaep s_a256gcm false JDamaged) gen;
+     WEnc ex_hdr IOther]
+  = List.repeat true 8 /\
+  refused (outcome_of (authz_parse (ex_cfg_m true (RStr s_rs256) [MPublic]) [] (init 0) ex_by_value
+                                   (Some (wencj ex_hdr (ex_claims s_c1 s_r1))))) = true /\
+  (* pushed: refused at the PAR endpoint, nothing is stored *)
+  (match step g [] (init 0) (OPush s_c1 ex_by_value (Some (wencj ex_hdr (ex_claims s_c1 s_r1))) ex_urn) with
+   | (st, RPush o PNone) => refused o && Nat.eqb (List.length (par_db st)) 0
+   | _ => false
+   end) = true /\
+  (* behind a request_uri *)
+  refused (outcome_of (authz_parse (ex_cfg true RAbsent) [(s_doc0, wenc ex_hdr (wgen s_es256 (ex_claims s_c1 s_r1) 1))] (init 0)
+                                   (ex_by_uri s_doc0) None)) = true.
 Proof. vm_compute. repeat split; reflexivity. Qed.
